@@ -2,7 +2,9 @@
    Input line (built by checks/domlib.py from the implementation's record 0):
      <view> <ndocs> @<description of the parsed documents and string facts, ';'-separated> <op>*
    Output: the same one-line format as harness/src/domains/dom.rs (records joined by " | "),
-   record 0 without the description.  The handle table lives here; Coq sees (document, id). *)
+   record 0 without the description.  The handle table lives here; Coq sees (document, id).
+   Op `X:d:v` (no step): the document table the XPath evaluator sees for document d, [xdoc_of_store] of
+   Model/StoreView.v, see [table_dump]. *)
 
 let split c s = String.split_on_char c s
 let big_usize_max : n = let rec ones k = if k = 1 then XH else XI (ones (k - 1)) in Npos (ones 64)
@@ -120,6 +122,49 @@ let dump st =
   done;
   Buffer.contents b
 
+(* ---- the evaluator's document table of a document of the store (op X; Model/StoreView.v) ----
+   [xdoc_of_store F merged s] printed in the canonical form of harness/src/domains/xpath.rs
+   (Table::dump_canonical): one word `<n>+<row>+...`, row = kind;id;key;parent;children;attrs;nss;name;data,
+   references = table positions, id = handle index of the item (`~` for id 0, `?` when the id has no handle),
+   key = rank among the distinct non-zero keys of the table.  The string facts F come from the word `F<i>:...`
+   of the description (checks/domlib.py copies it from the implementation's result of the same op:
+   `a<h>=<normalized value>` / `r<h>=<replacement text>` by HANDLE; an id without a fact gets the empty string). *)
+let xkind_name = function
+  | KElement -> "El" | KAttribute -> "At" | KText -> "Tx" | KCData -> "Cd" | KEntityReference -> "Er"
+  | KEntity -> "En" | KPI -> "Pi" | KComment -> "Co" | KDocument -> "Do" | KDocumentType -> "Dt"
+  | KDocumentFragment -> "Df" | KNotation -> "No" | KNamespace -> "Ns" | KExpandedText -> "Xt"
+
+let table_dump st d (facts : string) (merged : bool) : string =
+  let fa = Hashtbl.create 16 and fr = Hashtbl.create 4 in
+  if facts <> "-" && facts <> "" then List.iter (fun w ->
+      match split '=' w with
+      | [k; v] when String.length k > 1 ->
+        (match int_of_string_opt (String.sub k 1 (String.length k - 1)) with
+         | Some h when h >= 0 && h < st.nh ->
+           let (hd, id) = st.hs.(h) in
+           if hd = d then Hashtbl.replace (if k.[0] = 'a' then fa else fr) (int_of_n id) (if v = "E" then [] else dec v)
+         | _ -> ())
+      | _ -> ()) (split '^' facts);
+  let look t i = match Hashtbl.find_opt t (int_of_n i) with Some s -> s | None -> [] in
+  let f = { sf_attr = look fa; sf_ref = look fr } in
+  let doc = xdoc_of_store f merged (store_of st d) in
+  let keys = List.sort_uniq compare (List.filter (fun k -> k <> 0) (List.map (fun r -> int_of_n r.n_key) doc)) in
+  let rank k = if k = 0 then 0 else
+      let rec go i = function [] -> 0 | x :: t -> if x = k then i else go (i + 1) t in go 1 keys in
+  let l v = if v = [] then "-" else String.concat "." (List.map (fun x -> string_of_int (int_of_n x)) v) in
+  let o = function None -> "~" | Some x -> enc x in
+  let row r =
+    String.concat ";" [
+      xkind_name r.n_kind;
+      (if int_of_n r.n_id = 0 then "~" else match find st d r.n_id with Some h -> string_of_int h | None -> "?");
+      string_of_int (rank (int_of_n r.n_key));
+      (match r.n_parent with None -> "-" | Some p -> string_of_int (int_of_n p));
+      l r.n_children; l r.n_attrs;
+      (match r.n_nss with None -> "E" | Some v -> l v);
+      (match r.n_name with XNameNone -> "!" | XNameErr -> "E" | XName (a, p, u) -> enc a ^ "/" ^ o p ^ "/" ^ o u);
+      (match r.n_data with DataErr -> "E" | DataComputed -> "~" | DataStr x -> enc x) ] in
+  String.concat "+" (string_of_int (List.length doc) :: List.map row doc)
+
 (* ---- string facts ---- *)
 let qn s = if s = "~" then None else
   match split '_' s with
@@ -220,6 +265,11 @@ let () = register "dom" (fun words ->
       match split ':' w with
       | [k; d] -> Hashtbl.replace digests (int_of_string (String.sub k 1 (String.length k - 1))) (Array.of_list (split '+' d))
       | _ -> ()) (split ';' desc);
+    let tfacts = Hashtbl.create 16 in
+    List.iter (fun w -> if w <> "" && w.[0] = 'F' then
+      match split ':' w with
+      | [k; d] -> Hashtbl.replace tfacts (int_of_string (String.sub k 1 (String.length k - 1))) d
+      | _ -> ()) (split ';' desc);
     let out = Buffer.create 65536 in
     Buffer.add_string out ("init ti=" ^ check_init st ^ " pr=" ^ check_printable st ^ " # " ^ (if from = 0 then dump st else "-"));
     List.iteri (fun i opw ->
@@ -267,6 +317,14 @@ let () = register "dom" (fun words ->
         | _ -> None in
       let res =
         match op with
+        | None when f.(0) = "X" ->
+          (* the table of document d as the model sees it; no step *)
+          (match h 1 with
+           | Some (d, id) when kind_of (store_of st (int_of_n d)) id = Some KDoc ->
+             let merged = Array.length f > 2 && f.(2) = "1" in
+             let facts = (match Hashtbl.find_opt tfacts i with Some x -> x | None -> "-") in
+             "x:" ^ (if merged then "1" else "0") ^ ":" ^ table_dump st (int_of_n d) facts merged
+           | _ -> "na")
         | None -> "na"
         | Some (Query _) -> "q"
         | Some o ->
